@@ -144,14 +144,14 @@ Definition ex_cfg : cfg :=
         [mkThr4 (-1) (-1) (-1) (-1); mkThr4 30 60 (-1) (-1); mkThr4 (-1) (-1) (-1) (-1)] [0; 1; 0].
 Definition ex_nodes : list nstat := [mkNstat 4000 1000 10 true; mkNstat 4000 1000 10 true].
 Definition ex_round (mem : Z) : list nround :=
-  [mkNround false 1 0 0 [mkPod 1 5000 true 100 mem 7 true]; mkNround false 1 0 100 []].
+  [mkNround false 1 0 0 [mkPod 1 0 5000 true 100 mem 3 true]; mkNround false 1 0 100 []].
 (* node 1 at 80 %, 80 %, 50 % (between the thresholds), 80 % of memory; node 2 at 10 % *)
 Definition ex_rounds : list (list nround) := [ex_round 800; ex_round 800; ex_round 500; ex_round 800].
 
 Theorem c18_gate_consecutive_refuted :
   exists c ns rounds,
     wf_rounds rounds = true /\
-    map fst (run_gen false c ns rounds ([], [])) = [[]; []; []; [(1, 1)]] /\
+    map fst (run_gen false c ns rounds ([], [])) = [[]; []; []; [(1, (0, 1))]] /\
     strict_code c ns rounds (map fst (run_gen false c ns rounds ([], []))) = 7 /\
     map fst (run_gen true c ns rounds ([], [])) = [[]; []; []; []].
 Proof. exists ex_cfg, ex_nodes, ex_rounds. vm_compute. repeat split. Qed.
@@ -161,11 +161,11 @@ Print Assumptions c18_gate_consecutive_refuted.
 Example c18_nonvacuous_wf : wf_rounds ex_rounds = true.
 Proof. reflexivity. Qed.
 Example c18_nonvacuous_evicts :
-  map fst (run_gen false ex_cfg ex_nodes [ex_round 800; ex_round 800; ex_round 800] ([], [])) = [[]; []; [(1, 1)]]
-  /\ map fst (run_gen true ex_cfg ex_nodes [ex_round 800; ex_round 800; ex_round 800] ([], [])) = [[]; []; [(1, 1)]]
-  /\ prop_code ex_cfg ex_nodes [ex_round 800; ex_round 800; ex_round 800] [[]; []; [(1, 1)]] = 0
-  /\ prop_code ex_cfg ex_nodes [ex_round 800; ex_round 800; ex_round 800] [[]; [(1, 1)]; []] = 6
-  /\ prop_code ex_cfg ex_nodes [ex_round 800; ex_round 800; ex_round 800] [[]; []; [(2, 1)]] = 1.
+  map fst (run_gen false ex_cfg ex_nodes [ex_round 800; ex_round 800; ex_round 800] ([], [])) = [[]; []; [(1, (0, 1))]]
+  /\ map fst (run_gen true ex_cfg ex_nodes [ex_round 800; ex_round 800; ex_round 800] ([], [])) = [[]; []; [(1, (0, 1))]]
+  /\ prop_code ex_cfg ex_nodes [ex_round 800; ex_round 800; ex_round 800] [[]; []; [(1, (0, 1))]] = 0
+  /\ prop_code ex_cfg ex_nodes [ex_round 800; ex_round 800; ex_round 800] [[]; [(1, (0, 1))]; []] = 6
+  /\ prop_code ex_cfg ex_nodes [ex_round 800; ex_round 800; ex_round 800] [[]; []; [(2, (0, 1))]] = 1.
 Proof. vm_compute. repeat split. Qed.
 Example c18_nonvacuous_nothing :
   nothing_cond (table ex_cfg ex_nodes (ex_round 500)) (pool_size ex_cfg ex_nodes (ex_round 500)) = true.
@@ -178,10 +178,25 @@ Definition ex_cfg_fit : cfg :=
   mkCfg 0 false true false false false 0 0
         [mkThr4 (-1) (-1) (-1) (-1); mkThr4 30 60 (-1) (-1); mkThr4 (-1) (-1) (-1) (-1)] [0; 1; 0].
 Definition ex_round_fit (other : Z) : list nround :=
-  [mkNround false 1 0 0 [mkPod 1 5000 true 100 800 7 true]; mkNround false 1 0 other []].
+  [mkNround false 1 0 0 [mkPod 1 0 5000 true 100 800 3 true]; mkNround false 1 0 other []].
 Example c18_nonvacuous_nodefit :
   map fst (run_gen false ex_cfg_fit ex_nodes [ex_round_fit 100] ([], [])) = [[]]
-  /\ prop_code ex_cfg_fit ex_nodes [ex_round_fit 100] [[(1, 1)]] = 10
-  /\ map fst (run_gen false ex_cfg_fit ex_nodes [[mkNround false 1 0 0 [mkPod 1 5000 true 100 400 7 true; mkPod 2 5001 true 0 400 7 true];
-                                        mkNround false 1 0 100 []]] ([], [])) = [[(1, 1)]].
+  /\ prop_code ex_cfg_fit ex_nodes [ex_round_fit 100] [[(1, (0, 1))]] = 10
+  /\ map fst (run_gen false ex_cfg_fit ex_nodes [[mkNround false 1 0 0 [mkPod 1 0 5000 true 100 400 3 true; mkPod 2 0 5001 true 0 400 3 true];
+                                        mkNround false 1 0 100 []]] ([], [])) = [[(1, (0, 1))]].
+Proof. vm_compute. repeat split. Qed.
+
+(* (namespace, name) identity: a prod pod and a batch pod with the same name in two namespaces on
+   node 1; only the prod pod's 40 % counts as prod usage (prod high 50 %), so the node is not
+   prod-overloaded and an Evict of the prod pod is rejected (clause 5: nobody is overloaded) *)
+Definition ex_cfg_twin : cfg :=
+  mkCfg 0 false false false false false 0 0
+        [mkThr4 (-1) (-1) (-1) (-1); mkThr4 90 95 20 50; mkThr4 (-1) (-1) (-1) (-1)] [0; 1; 0].
+Definition ex_round_twin : list nround :=
+  [mkNround false 1 0 0 [mkPod 1 0 9000 true 100 400 3 true; mkPod 1 1 5000 true 100 400 3 true];
+   mkNround false 1 0 100 []].
+Example c18_nonvacuous_twin :
+  wf_rounds [ex_round_twin] = true
+  /\ map fst (run_gen true ex_cfg_twin ex_nodes [ex_round_twin] ([], [])) = [[]]
+  /\ prop_code ex_cfg_twin ex_nodes [ex_round_twin] [[(1, (0, 1))]] = 5.
 Proof. vm_compute. repeat split. Qed.
